@@ -13,7 +13,7 @@ ERR_NAMES = ["AssertionError", "ValueError", "SpectrumChoiceError", "SpectrumARE
              "UnboundLocalError", "RecursionError", "TypeError", "AttributeError"]
 SIDES = ['onesided', 'twosided', 'centerdc']
 SAMPLINGS = [1.0, 2.0, 0.5, 4.0]
-DATA_CODE = {'r0': 0, 'r1': 1, 'c0': 2, 'c1': 3}
+DATA_CODE = {'r0': 0, 'r1': 1, 'c0': 2, 'c1': 3, 'r0p': 4, 'c0p': 5, 'r0t': 6, 'r0u': 7, 'c0t': 8, 'c0u': 9}
 
 
 def idx(x, l):
